@@ -121,7 +121,7 @@ def runCase (c : Case) (pending : Option String) (premiumDefault : Int) : Option
   | .error e => (pending, s!"rej {e.name} pending={fmtPending pending}")
   | .ok b =>
     let b := { b with matched := reorder c.visit b.matched }
-    match orderMatchValidate env b (UInt32.ofNat c.best) pending with
+    match orderMatchValidate env Rules.fixed b (UInt32.ofNat c.best) pending with
     | (.error e, p) => (p, s!"rej {e.name} pending={fmtPending p}")
     | (.ok _, p) => (p, s!"ok pending={fmtPending p}")
 
